@@ -169,6 +169,32 @@ def judge_mixed(version, b, le, u):
     return out
 
 
+FORMS = [("f4", "f8", "f8"), ("f8", "f4", "f8"), ("f8", "f8", "f4"), ("f4", "f4", "f4"), ("f8", "i8", "f8"), ("f8", "i4", "f4"), (">f8", ">f8", ">f8"), (">f4", "f8", ">f4")]
+FORM_TOL = {"f4": 1e-5, ">f4": 1e-5}
+
+
+def judge_forms(version, b, le, u, forms):
+    """the same numbers handed in as single-precision / integer / byte-swapped arrays: no exception, and the value the
+    double-precision call gives for the numbers those arrays hold (exactly, or to 1e-5 where an input is single)"""
+    t = taus(version)
+    bb, ll, uu = np.array(b, dtype=float).astype(forms[0]), np.array(le, dtype=float).astype(forms[1]), np.array(u, dtype=float).astype(forms[2])
+    ins = [x.copy() for x in (bb, ll, uu)]
+    ref = e_call(version, bb.astype(float), ll.astype(float), uu.astype(float))
+    if isinstance(ref, str):
+        return []  # (not a valid batch in double precision either: other clauses)
+    try:
+        got = np.asarray(t.tau_energy(bb, ll, uu), dtype=float)
+    except Exception as ex:
+        return [("input_form_no_exception", f"values for dtypes {forms}", f"{type(ex).__name__}: {str(ex)[:100]}")]
+    tol = max([FORM_TOL.get(f, 0.0) for f in forms])
+    if got.shape != ref.shape or not np.all(np.abs(got - ref) <= tol * np.abs(ref)):
+        i = int(np.argmax(np.abs(got - ref) / np.abs(ref))) if got.shape == ref.shape else 0
+        return [("input_form_value", f"{ref[i]!r} (dtypes {forms}, event {i}, tol {tol})", repr(got[i]) if got.shape == ref.shape else got.shape)]
+    if any(a.tobytes() != c.tobytes() for a, c in zip((bb, ll, uu), ins)):
+        return [("input_form_inputs_unmodified", "unchanged", "changed")]
+    return []
+
+
 def judge_rejected(version, le):
     for via in ("tau_energy", "sampler"):
         t = taus(version)
@@ -290,10 +316,22 @@ def run(ctx):
                 ctx.tick(n, ("energy_pattern", ver, pat[0] == pat[-1], len(set(pat))))
                 for c, e, o in v:
                     ctx.violation(c, {"kind": "mixed", "version": ver, "b": bb, "le": ll, "u": uu}, e, o)
+        # input dtype forms: batches of every angle-class pattern (below minimum / in range / above maximum), whole-number
+        # energies so that integer arrays can hold them
+        for forms in FORMS:
+            for assign in itertools.product((0, 1, 2), repeat=3):
+                bb = [classes[a][k % 3] for k, a in enumerate(assign)]
+                ll = [7.0, 9.0, 11.0]
+                uu = [0.375, 0.125, 0.8125]
+                ctx.tick(3, ("forms", ver, forms, assign))
+                for c, e, o in judge_forms(ver, bb, ll, uu, forms):
+                    ctx.violation(c, {"kind": "forms", "version": ver, "b": bb, "le": ll, "u": uu, "forms": list(forms)}, e, o)
     ctx.sample({"kind": "mixed", "angles_deg": [0.0, 10.0, 60.0], "u": [0.37, 0.11, 0.83]})
 
 
 def replay(case):
+    if isinstance(case, dict) and case.get("kind") == "forms":
+        return judge_forms(case["version"], case["b"], case["le"], case["u"], tuple(case["forms"]))
     if isinstance(case, dict) and case.get("kind") == "pipeline":
         from .. import pipeline
 
